@@ -93,9 +93,10 @@ def mkbool(x):
 
 
 class VInt(V):
-    __slots__ = ("c", "b", "i", "lo", "hi", "enum")
+    __slots__ = ("c", "b", "i", "lo", "hi", "enum", "lz")
 
-    def __init__(self, c=None, b=None, i=None, lo=None, hi=None, enum=None):
+    def __init__(self, c=None, b=None, i=None, lo=None, hi=None, enum=None, lz=0):
+        self.lz = lz        # number of low bits known to be zero (for Int-kind values produced by <<)
         if c is None:
             # try to fold
             src = b if b is not None else i
